@@ -44,6 +44,9 @@ def known(ctx, key):
     return False
 
 
+XDRIVER, X_MODEL_FIXED = None, True
+
+
 def parse_flow(a):
     """'err:h:hex:tp.ap.indent.inc|...' -> list of (err, h, body, context)"""
     if a is None or a in ("nolang", "bad", "skip"):
@@ -125,6 +128,8 @@ def run(ctx):
     driver = common.build_driver("C17")
     denv = common.run_env({"C18_TABLES": tfile})
     gen.gen_tables()
+    global XDRIVER, X_MODEL_FIXED
+    XDRIVER = common.build_driver("C17x")               # the XML instance (Model/FlowEncXml.v over Model/EncXml.v)
     strict_driver = common.build_driver("C04")          # `strict <lang> <hex>` = Spec.decode_lang (proved round trip, C04)
     hl = ["header %d W 0" % l for l in c17lib.COVERED_LANGS]
     ha, _ = common.run_lines(harness, hl, shards=1)
@@ -145,6 +150,7 @@ def run(ctx):
     ctx.coverage["pending_finding_tolerated"] = tolerated
     fixed = {m: not tolerated[m] for m in "WX"}      # from here on: "judge strictly" per output mode
     model_fixed = bool(pf[0] and pf[1] and pf[0][-1][1:] == pf[1][-1][1:])
+    X_MODEL_FIXED = bool(pf[2] and pf[3] and pf[2][-1][1:] == pf[3][-1][1:])
 
     nh = 50000 if ctx.tier == "quick" else 1000000
     if os.environ.get("C17_NSEQ"):
@@ -318,6 +324,14 @@ def process(ctx, batch, harness, driver, denv, fixed, model_fixed, total, kinds,
             eown.append(hi)
     eans, _ = common.run_lines(driver, elines, env=denv) if elines else ([], [])
     eof = dict(zip(eown, eans))
+    # ... and the XML instance (Model/FlowEncXml.v over Model/EncXml.v): every XML history
+    xlines, xown = [], []
+    for hi, h in enumerate(batch):
+        if h["mode"] == "X" and XDRIVER:
+            xlines.append(("flowencfixed" if X_MODEL_FIXED else "flowenc") + h["line"][4:])
+            xown.append(hi)
+    xans, _ = common.run_lines(XDRIVER, xlines) if xlines else ([], [])
+    eof.update(dict(zip(xown, xans)))
     per = {}
     for (hi, kind, payload), a in zip(owner, ans):
         per.setdefault(hi, {"fresh": {}, "batch": {}})
@@ -426,18 +440,21 @@ def process(ctx, batch, harness, driver, denv, fixed, model_fixed, total, kinds,
                 total["encwbxml_skipped"] = total.get("encwbxml_skipped", 0) + 1
             else:
                 mf = parse_flow(m.split(" S=")[0])
-                total["encwbxml_compared"] = total.get("encwbxml_compared", 0) + 1
+                ck = "encwbxml_compared" if h["mode"] == "W" else "encxml_compared"
+                total[ck] = total.get(ck, 0) + 1
                 def tie2(x):
-                    return (x[0], x[1], x[2], ".".join(x[3].split(".")[:2]))
+                    # WBXML: the two code pages; XML: indent and in_content
+                    return (x[0], x[1], x[2], ".".join(x[3].split(".")[:2] if h["mode"] == "W" else x[3].split(".")[2:4]))
                 if mf is None or [tie2(x) for x in mf] != [tie2(x) for x in flow]:
                     k = next((i for i in range(min(len(mf or []), len(flow))) if tie2(mf[i]) != tie2(flow[i])), None)
-                    corr.append({"input": h["line"], "kind": "encwbxml-instance-vs-c", "first_differing_op": k,
+                    corr.append({"input": h["line"], "kind": "encwbxml-instance-vs-c" if h["mode"] == "W" else "encxml-instance-vs-c", "first_differing_op": k,
                                  "c": flow[k] if k is not None else None, "model": mf[k] if (mf and k is not None) else m[:200]})
                 else:
                     sb = m.split(" S=")[1].split(" ")[0] if " S=" in m else None
                     xb, _ = expected(h["lives"][-1][0])
                     if sb is not None and xb is not None and (sb or "-") != xb:
-                        corr.append({"input": h["line"], "spec_body": sb, "fresh_encoder_body": xb, "kind": "encwbxml-spec-vs-fresh"})
+                        corr.append({"input": h["line"], "spec_body": sb, "fresh_encoder_body": xb,
+                                     "kind": "encwbxml-spec-vs-fresh" if h["mode"] == "W" else "encxml-spec-vs-fresh"})
         if "D" in h["ops"] and flow[-1][2] != "-":
             nontrivial.add(hash(h["line"]))
         if len(samples) < 12 and hash(h["line"]) % 11 == 0 and "D" in h["ops"]:
